@@ -25,6 +25,7 @@ impl Parse for StartFragment {
 				match parser.peek_char()? {
 					Some('}') => {
 						parser.next_char()?;
+						parser.end_fragment(i);
 						Ok(Meta(StartFragment::Empty, i))
 					}
 					_ => {
